@@ -79,8 +79,20 @@ func (rd *Renderer) emit(out *[]Tk, s ...string) {
 	}
 }
 
+// splatSpine: parentheses around such a node are not redundant when it is the source of a postfix
+// operator (they end the splat's traversal).
+func splatSpine(n *Node) bool {
+	switch n.K {
+	case "fsplat", "asplat":
+		return true
+	case "attr", "index", "legacy":
+		return splatSpine(n.Kids[0])
+	}
+	return false
+}
+
 func (rd *Renderer) sub(out *[]Tk, n *Node, need bool) {
-	if need || (rd.R != nil && rd.ExtraParen > 0 && rd.R.Intn(100) < rd.ExtraParen) {
+	if need || (rd.R != nil && rd.ExtraParen > 0 && !splatSpine(n) && rd.R.Intn(100) < rd.ExtraParen) {
 		rd.emit(out, "(")
 		rd.Expr(out, n)
 		rd.emit(out, ")")
@@ -131,6 +143,9 @@ func joinPlain(toks []Tk) string {
 	parts := make([]string, len(toks))
 	for i, t := range toks {
 		parts[i] = t.Text
+		if t.NL {
+			parts[i] = "," // inside a quoted template a newline separator is not available
+		}
 	}
 	return strings.Join(parts, " ")
 }
